@@ -173,6 +173,14 @@ func TestVerifBounded(t *testing.T) {
 		var accepted []c17Line
 		sec, latest := t0/1000, uint64(0)
 		steps := 5 + rng.Intn(26)
+		if c%4 == 3 {
+			// many rolls on one day: every batch overflows the file, so the roll numbers reach two digits
+			// (name order .9 < .10 matters for retention, for the next roll number and for the search order)
+			w.maxSingleSize, maxSize = 60, 60
+			maxFiles = []uint32{3, 6, 12, 40}[rng.Intn(4)]
+			w.maxFileAmount = maxFiles
+			steps = 24 + rng.Intn(14)
+		}
 		for s := 0; s < steps; s++ {
 			switch rng.Intn(6) {
 			case 0: // same second again
